@@ -2,12 +2,16 @@
 (***************************************************************************)
 (* Trace validation for Inventory.tla (property C12).                        *)
 (*                                                                         *)
-(* trace.ndjson holds what the harness recorded from the REAL inventory      *)
-(* service: one line per iteration of inventoryService.run -- the case that  *)
-(* fired (ev), its arguments, the reply the caller received, and `post`, the *)
-(* loop's own state before it selects again (taken inside the loop by the    *)
-(* veriftrace hook).  Many scripts are concatenated; each starts with a      *)
-(* `reset` line carrying the provider configuration.                         *)
+(* The harness records from the REAL inventory service one line per          *)
+(* iteration of inventoryService.run -- the case that fired (ev), its        *)
+(* arguments, the reply the caller received, and `post`, the loop's own      *)
+(* state before it selects again (taken inside the loop by the veriftrace    *)
+(* hook).  Each script's recording starts with a `reset` line carrying the   *)
+(* provider configuration.  Scripts share prefixes, and on equal prefixes    *)
+(* the recordings are equal line for line, so the recordings are merged      *)
+(* into a TREE (trace.ndjson: one record [parent, kids, e] per tree node,    *)
+(* record 1 is the root) and every distinct recorded step is judged once;    *)
+(* recordings that differ anywhere simply branch.                            *)
 (*                                                                         *)
 (* For every line TLC                                                        *)
 (*  (i)  evaluates the four property predicates of Inventory.tla on the      *)
@@ -23,17 +27,16 @@
 (***************************************************************************)
 EXTENDS Inventory, Json
 
-Trace == ndJsonDeserialize("trace.ndjson")
+Tree == ndJsonDeserialize("trace.ndjson")
 
 VARIABLES
-    l,        \* lines consumed
+    node,     \* the tree node whose recorded step was consumed last (1 = root)
     ids,      \* identities (small integers, by first appearance) of the reservations in st.resv
     led,      \* ledger: granted and not released, [id, order, name, req, alloc]
     ledInv,   \* node capacities last reported to the loop
-    script,   \* id of the script being replayed
-    nviol, ndrift
+    script    \* id of (one of) the script(s) being replayed
 
-tvars == <<vars, l, ids, led, ledInv, script, nviol, ndrift>>
+tvars == <<vars, node, ids, led, ledInv, script>>
 
 -----------------------------------------------------------------------------
 HeldObs(post) ==
@@ -75,8 +78,8 @@ StateConforms(exp, post) ==
     /\ exp.accepting = post.accepting
     /\ exp.fetching = post.fetching
 
-Report(kind, what, e, detail) ==
-    PrintT(ToJson([kind |-> kind, what |-> what, line |-> l + 1, script |-> script, ev |-> e.ev, detail |-> detail]))
+Report(kind, what, k, e, detail) ==
+    PrintT(ToJson([kind |-> kind, what |-> what, node |-> k, script |-> script, ev |-> e.ev, detail |-> detail]))
 
 -----------------------------------------------------------------------------
 (* The action record the property predicates see *)
@@ -145,11 +148,11 @@ LedgerAfter(e, preIds, post) ==
 
 -----------------------------------------------------------------------------
 TInit ==
-    /\ l = 0 /\ ids = <<>> /\ led = <<>> /\ ledInv = <<>> /\ script = "" /\ nviol = 0 /\ ndrift = 0
+    /\ node = 1 /\ ids = <<>> /\ led = <<>> /\ ledInv = <<>> /\ script = ""
     /\ st = InitState([fcpu |-> <<1, 1>>, fmem |-> <<1, 1>>, fsto |-> <<1, 1>>, ports |-> 0], <<>>)
     /\ last = [act |-> "init"] /\ steps = 0 /\ hist = <<>>
 
-Reset(e) ==
+Reset(k, e) ==
     LET init == InitState(e.cfg, e.adopt)
         ld == [i \in 1..Len(e.adopt) |->
                  [id |-> i, order |-> e.adopt[i].order, name |-> e.adopt[i].name,
@@ -161,20 +164,17 @@ Reset(e) ==
         /\ ledInv' = <<>>
         /\ script' = e.script
         /\ last' = [act |-> "init"]
-        /\ ndrift' = IF ok THEN ndrift ELSE ndrift + 1
-        /\ nviol' = nviol
-        /\ (ok \/ PrintT(ToJson([kind |-> "DRIFT", what |-> "initial state", line |-> l + 1,
+        /\ (ok \/ PrintT(ToJson([kind |-> "DRIFT", what |-> "initial state", node |-> k,
                                  script |-> e.script, ev |-> e.ev, detail |-> e.post])))
 
-Skip(e) ==      \* the harness did not issue the stimulus (guard false on the real state): nothing happened
+Skip(k, e) ==      \* the harness did not issue the stimulus (guard false on the real state): nothing happened
     LET same == StateConforms(st, e.post)
     IN  /\ st' = ObservedState(st, e.post, led, st.armed)
         /\ ids' = IdsObs(e.post)
-        /\ UNCHANGED <<led, ledInv, script, last, nviol>>
-        /\ ndrift' = IF same THEN ndrift ELSE ndrift + 1
-        /\ (same \/ Report("DRIFT", "state changed without a step", e, e.post))
+        /\ UNCHANGED <<led, ledInv, script, last>>
+        /\ (same \/ Report("DRIFT", "state changed without a step", k, e, e.post))
 
-Observe(e) ==
+Observe(k, e) ==
     LET pre == st
         a == ActionOf(e)
         x == Expected(pre, e)
@@ -187,38 +187,35 @@ Observe(e) ==
         v4 == PUnreserveRemovesExactlyOne(a, heldPre, heldPost)
         conf == Enabled(pre, e) /\ StateConforms(x.st, post) /\ ReplyConforms(e, x, post)
         ld == LedgerAfter(e, ids, post)
-        nv == (IF v1 THEN 0 ELSE 1) + (IF v2 THEN 0 ELSE 1) + (IF v3 THEN 0 ELSE 1) + (IF v4 THEN 0 ELSE 1)
     IN  /\ st' = ObservedState(pre, post, ld, x.st.armed)
         /\ ids' = IdsObs(post)
         /\ led' = ld
         /\ ledInv' = IF e.ev = "Refresh" /\ e.ok THEN e.inv ELSE ledInv
         /\ script' = script
         /\ last' = a
-        /\ nviol' = nviol + nv
-        /\ ndrift' = IF conf THEN ndrift ELSE ndrift + 1
-        /\ (v1 \/ Report("VIOLATION", "GrantOnlyIfPackable", e, [ledger |-> led, inv |-> ledInv]))
-        /\ (v2 \/ Report("VIOLATION", "StatusMatchesGranted", e,
+        /\ (v1 \/ Report("VIOLATION", "GrantOnlyIfPackable", k, e, [ledger |-> led, inv |-> ledInv]))
+        /\ (v2 \/ Report("VIOLATION", "StatusMatchesGranted", k, e,
                          [reply |-> e.reply, expected |-> ExpectedEntries(LedNoId(led), pre.cfg)]))
-        /\ (v3 \/ Report("VIOLATION", "StatusIsReadOnly", e, [before |-> heldPre, after |-> heldPost, prev |-> last]))
-        /\ (v4 \/ Report("VIOLATION", "UnreserveRemovesExactlyOne", e, [before |-> heldPre, after |-> heldPost]))
-        /\ (conf \/ Report("DRIFT", "step differs from the specification", e,
+        /\ (v3 \/ Report("VIOLATION", "StatusIsReadOnly", k, e, [before |-> heldPre, after |-> heldPost, prev |-> last]))
+        /\ (v4 \/ Report("VIOLATION", "UnreserveRemovesExactlyOne", k, e, [before |-> heldPre, after |-> heldPost]))
+        /\ (conf \/ Report("DRIFT", "step differs from the specification", k, e,
                            [enabled |-> Enabled(pre, e), expected |-> [held |-> HeldOf(x.st), inv |-> x.st.inv,
                               ports |-> x.st.ports, accepting |-> x.st.accepting, fetching |-> x.st.fetching,
                               reply |-> x.reply],
                             observed |-> post]))
 
 TNext ==
-    /\ l < Len(Trace)
-    /\ l' = l + 1
-    /\ steps' = steps /\ hist' = hist
-    /\ LET e == Trace[l + 1]
-       IN  CASE e.ev = "reset" -> Reset(e)
-             [] e.ev = "Skip" -> Skip(e)
-             [] OTHER -> Observe(e)
+    \E j \in 1..Len(Tree[node].kids) :
+        LET k == Tree[node].kids[j]
+            e == Tree[k].e
+        IN  /\ node' = k
+            /\ steps' = steps /\ hist' = hist
+            /\ CASE e.ev = "reset" -> Reset(k, e)
+                 [] e.ev = "Skip" -> Skip(k, e)
+                 [] OTHER -> Observe(k, e)
 
 TSpec == TInit /\ [][TNext]_tvars
 
-\* acceptance: every line was consumed; the counters are reported from the last state
-Done ==
-    l = Len(Trace) => PrintT(ToJson([kind |-> "DONE", lines |-> l, violations |-> nviol, drift |-> ndrift]))
+\* Acceptance (checked by the caller): TLC finishes without error and the number of distinct states equals the
+\* number of tree nodes, i.e. every recorded step was consumed and judged.
 =============================================================================
